@@ -188,7 +188,10 @@ Record lfeat := {
   lf_resultcb : list N                    (* resultCallbacks *)
 }.
 
-Record lent := { le_addr : eaddr; le_next : N }.
+(* an entity object the application created: its address, its feature id generator, and whether it
+   has been taken out of the device again (DeviceLocal.RemoveEntity; the object and its features live on,
+   but no address resolves to them any more) *)
+Record lent := { le_addr : eaddr; le_next : N; le_gone : bool }.
 
 Record rfeat := { rf_dev : option N; rf_id : N; rf_type : N; rf_role : role }.
 Record rent := { re_dev : option N; re_addr : eaddr; re_feats : list rfeat }.
@@ -220,7 +223,7 @@ Definition devclass_feat : lfeat :=
      lf_rcb := []; lf_resultcb := [] |}.
 
 Definition init : st :=
-  {| lents := [ {| le_addr := [0%N]; le_next := 2 |} ];
+  {| lents := [ {| le_addr := [0%N]; le_next := 2; le_gone := false |} ];
      lfeats := [nodemgmt_feat; devclass_feat];
      peers := []; subs := []; binds := [] |}.
 
@@ -237,6 +240,7 @@ Inductive obs :=
 (* ------------------------------------------------------------------ operations *)
 Inductive op :=
 | AddLocalEntity (e : eaddr)
+| RemoveLocalEntity (e : eaddr)                      (* DeviceLocal.RemoveEntity; an address is not reused afterwards *)
 | AddLocalFeature (e : eaddr) (t : N) (r : role)
 | AddFunction (e : eaddr) (f fn : N) (rd wr : bool)
 | SetData (e : eaddr) (f fn v : N)
@@ -269,9 +273,11 @@ Definition find_lfeat (s : st) (e : eaddr) (f : option N) : option lfeat :=
   | Some f => find (is_feat e f) (lfeats s)
   end.
 
-(* DeviceLocal.FeatureByAddress: entity, then feature; the device part is ignored *)
+(* DeviceLocal.FeatureByAddress: the entity of the device with EXACTLY that address (DeviceLocal.Entity:
+   reflect.DeepEqual on the address — a prefix of a sub entity's address, or the address of a removed
+   entity, resolves to nothing), then the feature; the device part is ignored *)
 Definition local_feature (s : st) (a : faddr) : option lfeat :=
-  if existsb (fun le => eqb_eaddr (le_addr le) (fa_ent a)) (lents s)
+  if existsb (fun le => eqb_eaddr (le_addr le) (fa_ent a) && negb (le_gone le)) (lents s)
   then find_lfeat s (fa_ent a) (fa_feat a) else None.
 
 Definition lf_addr (f : lfeat) : faddr :=
@@ -823,8 +829,16 @@ Definition step_v (v : variant) (s : st) (o : op) : st * list obs :=
   match o with
   | AddLocalEntity e =>
       if existsb (fun le => eqb_eaddr (le_addr le) e) (lents s) then (s, [])
-      else ({| lents := lents s ++ [ {| le_addr := e; le_next := match e with 0%N :: _ => 0 | _ => 1 end |} ];
+      else ({| lents := lents s ++ [ {| le_addr := e; le_next := match e with 0%N :: _ => 0 | _ => 1 end; le_gone := false |} ];
                lfeats := lfeats s; peers := peers s; subs := subs s; binds := binds s |}, [])
+  | RemoveLocalEntity e =>
+      (* the entity leaves DeviceLocal.entities; its features, their data, callbacks and the registry entries on
+         them stay what they are (the entries are dead: nothing resolves to their server feature any more);
+         the device information entity is never removed *)
+      if eqb_eaddr e [0%N] then (s, []) else
+      ({| lents := map (fun x => if eqb_eaddr (le_addr x) e
+                                 then {| le_addr := le_addr x; le_next := le_next x; le_gone := true |} else x) (lents s);
+          lfeats := lfeats s; peers := peers s; subs := subs s; binds := binds s |}, [])
   | AddLocalFeature e t r =>
       match find (fun le => eqb_eaddr (le_addr le) e) (lents s) with
       | None => (s, [ONone])
@@ -834,7 +848,8 @@ Definition step_v (v : variant) (s : st) (o : op) : st * list obs :=
                       lf_rcb := []; lf_resultcb := [] |} in
           (* EntityLocal.AddFeature ignores a second feature of the same type and role (the id is consumed) *)
           let dup := existsb (fun x => eqb_eaddr (lf_ent x) e && N.eqb (lf_type x) t && eqb_role (lf_role x) r) (lfeats s) in
-          ({| lents := map (fun x => if eqb_eaddr (le_addr x) e then {| le_addr := e; le_next := N.succ id |} else x) (lents s);
+          ({| lents := map (fun x => if eqb_eaddr (le_addr x) e
+                                     then {| le_addr := e; le_next := N.succ id; le_gone := le_gone x |} else x) (lents s);
               lfeats := if dup then lfeats s else lfeats s ++ [f]; peers := peers s; subs := subs s; binds := binds s |},
            [ORetN id])
       end
